@@ -194,8 +194,10 @@ func (s *Settings) merge(other *Settings) {
 			}
 		} else {
 			otherFieldValue := getUnexportedField(otherField)
-			setUnexportedField(sField, otherFieldValue)
-
+			if !isNilish(otherFieldValue) {
+				// an unset (nil) slice in a later layer must not erase an earlier layer's value
+				setUnexportedField(sField, otherFieldValue)
+			}
 		}
 	}
 }
